@@ -22,7 +22,7 @@ PROPERTY = "C07"
 L = lift
 M = core.MOps
 NEEDS_STRING_VALIDATION = True
-DECIMALS = ["5", "25", "125", "0", "50", "000001"]         # dyadic or tiny: float arithmetic on them is exact
+DECIMALS = ["5", "25", "125", "0", "50", "000001", "00005"]         # dyadic or tiny: float arithmetic on them is exact
 
 
 def tokenize(expr, kind):
@@ -181,6 +181,9 @@ def job_form(ctx, mode, dexpr, texpr, zexpr, cfg, dec="5", ranges=None, focus=No
     C.set_mode(data, mode)
     install_range_summary(data, mode)
     install_weeks_summary(data, mode)
+    # fractions such as .000001 are not short dyadic numbers: the sum "integer part + fraction" is modelled in exact
+    # rational arithmetic (the real code rounds it to a double); reset by the runner before every job
+    core.LONG_FRACTIONS[0] = float("0." + dec).as_integer_ratio()[1] > 2 ** 30
     ned = cfg.get("num_expanded_year_digits", 2)
     PARSER = parsers.TimePointParser(**cfg)
     dt, tt, zt = tokenize(dexpr, "date"), tokenize(texpr or "", "time"), tokenize(zexpr or "", "zone")
@@ -291,7 +294,9 @@ def job_form(ctx, mode, dexpr, texpr, zexpr, cfg, dec="5", ranges=None, focus=No
             unit = {"ii": p._hour_of_day, "nn": p._minute_of_hour, "tt": p._second_of_minute}[kind]
             base = {"ii": h, "nn": mi, "tt": s}[kind]
             if type(unit) is core.SymRatio:
-                ok = L(unit.num) * frac_d == (L(base) * frac_d + frac_n) * unit.den
+                # |unit - (base + 0.digits)| < 1e-9 in integers (a double is not exactly the decimal it was read from)
+                x = L(unit.num) * frac_d - (L(base) * frac_d + frac_n) * unit.den
+                ok = z3.And(x * 10 ** 9 < unit.den * frac_d, -x * 10 ** 9 < unit.den * frac_d)
             elif isinstance(unit, float) and not isinstance(base, SymInt):
                 ok = abs(unit - (base + frac_n / frac_d)) < 1e-9
             else:
@@ -767,7 +772,10 @@ def jobs(tier):
                     if not th and "W" in d and not (k == 0 or z is None):
                         continue        # week forms are the slow ones (mod-7 over decimal digits)
                     isdec = "," in tx or "." in tx
-                    for dec in (DECIMALS if (th and isdec) else DECIMALS[:1]):
+                    decs = DECIMALS if (th and isdec) else DECIMALS[:1]
+                    if not th and isdec and z is None and d == t["date_complete"][0]:
+                        decs = ["5", "000001", "00005"]     # fractions below 1e-4 (their float repr switches to exponent notation)
+                    for dec in decs:
                         J.append(("job_form", dict(mode="gregorian", dexpr=d, texpr=tx, zexpr=z or "", cfg=base, dec=dec, ranges=rg(d))))
             J.append(("job_form", dict(mode="gregorian", dexpr=d, texpr=None, zexpr=None, cfg=base, ranges=rg(d))))
             # accepted <=> valid around the legal ranges (no precondition): date tokens, then time + zone tokens
@@ -825,13 +833,14 @@ INFO = {
                    "decimal fraction on the last unit, the spelled signed zone or the configured default, lower-order fields at "
                    "the period start; str(parse(s, dump_as_parsed=True)) == s up to trailing zeros of a decimal. Basic-only "
                    "parsers and basic/extended mixing are checked on one sample text per form (concrete).",
-    "bounds": {"quick": {"forms": "all 12 complete date forms x the hhmmss/hh:mm:ss form x all zone spellings; every other time form (incl. decimals ,5 / .5) with no zone and Z; hh and hhmm forms with every zone; all reduced date forms; 6 parser configurations x 6 forms; 3 other calendar modes x 3 forms",
+    "bounds": {"quick": {"forms": "all 12 complete date forms x the hhmmss/hh:mm:ss form x all zone spellings; every other time form (incl. decimals ,5 / .5) with no zone and Z; the decimal forms also with the fractions ,000001 and ,00005 on the first calendar form; hh and hhmm forms with every zone; all reduced date forms; 6 parser configurations x 6 forms; 3 other calendar modes x 3 forms",
                          "digits": "decoding: every digit symbolic, restricted to valid assignments (years 0000-9999, +-000000..999999; week forms with expanded years: +-001000..+-002199 only); accepted<=>valid: the date tokens (00-99 / 000-999 incl. invalid values) or the time and zone tokens symbolic with the other tokens fixed", "excluded": "negative zero: '-000000' years and '-00:00' offsets (their canonical text is '+...')", "decimals": "concrete fraction digits 5, 25"},
                "thorough": {"forms": "the full date x time x zone cross product", "decimals": "5, 25, 125, 0, 50, 000001"}},
     "outside": ["truncated forms combined with every time form (quick: the hh[:]mm[:]ss and hh forms and the truncated time forms)",
                 "decimal fractions with symbolic or non-dyadic digits (floating point)", "strings that are not instances of a documented form (C09 text clause)",
                 "the local-system default zone (covered by C18's get_local_time_zone)"],
     "assumptions": ["the regex shim interprets the library's own patterns; validated against re on every run",
+                    "fractions that are not short dyadic numbers (,000001 ,00005): 'integer part + fraction' is modelled in exact rational arithmetic where the real code rounds to a double; the field obligation allows 1e-9",
                     "get_days_in_year_range and get_weeks_in_year run as their closed forms (C03)"],
 }
 REQUIRED_SCENARIOS = {"all": ["truncated form", "truncated with zone", "truncated without zone", "form parsed", "expanded year form", "week form", "ordinal form", "decimal time", "zone given",
